@@ -100,8 +100,10 @@ namespace pika::transform_mpi_detail {
                 ex::set_stopped(std::move(r.op_state.r));
             }
 
+            // returns false if the receiver has already been signalled (set_error), in which
+            // case the caller must not go on to trigger()
             template <typename... Ts>
-            void dispatch(receiver& r)
+            bool dispatch(receiver& r)
             {
                 using invoke_result_type = mpi::detail::mpi_request_invoke_result_t<F, Ts...>;
 
@@ -142,8 +144,9 @@ namespace pika::transform_mpi_detail {
                     ex::set_error(std::move(r.op_state.r),
                         std::make_exception_ptr(
                             pika::mpi::exception(r.op_state.status, "dispatch mpi")));
-                    return;
+                    return false;
                 }
+                return true;
             }
 
             void trigger(receiver& r)
@@ -261,8 +264,7 @@ namespace pika::transform_mpi_detail {
                         PIKA_DETAIL_DP(mpi::detail::mpi_tran<5>,
                             debug(str<>("transform_mpi_recv"), "set_value_t"));
 
-                        dispatch<Ts...>(r);
-                        trigger(r);
+                        if (dispatch<Ts...>(r)) trigger(r);
                     },
                     [&](std::exception_ptr ep) {
                         ex::set_error(std::move(r.op_state.r), std::move(ep));
